@@ -1,3 +1,5 @@
+#[cfg(kanal_verif)]
+use crate::verif::{core, std};
 use crate::{
     backoff::{self, get_parallelism},
     pointer::KanalPtr,
@@ -137,6 +139,8 @@ impl<T> Signal<T> {
             KanalWaker::Sync(waker) => {
                 // waker is not shared as the state is not `LOCKED_STARVATION`
                 unsafe {
+                    #[cfg(kanal_verif)]
+                    crate::verif::access(crate::verif::acc::WAKER_WRITE, self as *const Self as usize);
                     *waker.get() = Some(std::thread::current());
                 }
                 match self.state.compare_exchange(
@@ -196,6 +200,8 @@ impl<T> Signal<T> {
     #[inline(always)]
     #[cfg(feature = "async")]
     pub(crate) fn register_waker(&mut self, waker: &Waker) {
+        #[cfg(kanal_verif)]
+        crate::verif::access(crate::verif::acc::WAKER_WRITE, self as *const Self as usize);
         self.waker = KanalWaker::Async(waker.clone())
     }
 
@@ -203,6 +209,8 @@ impl<T> Signal<T> {
     #[inline(always)]
     #[cfg(feature = "async")]
     pub(crate) fn will_wake(&self, waker: &Waker) -> bool {
+        #[cfg(kanal_verif)]
+        crate::verif::access(crate::verif::acc::WAKER_READ, self as *const Self as usize);
         match &self.waker {
             KanalWaker::Async(w) => w.will_wake(waker),
             KanalWaker::Sync(_) | KanalWaker::None => unreachable!(),
@@ -216,11 +224,15 @@ impl<T> Signal<T> {
 
     /// Reads kanal ptr and returns its value
     pub(crate) unsafe fn assume_init(&self) -> T {
+        #[cfg(kanal_verif)]
+        crate::verif::access(crate::verif::acc::SLOT_READ, self as *const Self as usize);
         self.ptr.read()
     }
 
     /// Wakes the sleeping thread or coroutine
     unsafe fn wake(this: *const Self, state: u8) {
+        #[cfg(kanal_verif)]
+        crate::verif::access(crate::verif::acc::WAKER_KIND, this as usize);
         match &(*this).waker {
             KanalWaker::Sync(waker) => {
                 if (*this)
@@ -228,6 +240,8 @@ impl<T> Signal<T> {
                     .compare_exchange(LOCKED, state, Ordering::Release, Ordering::Acquire)
                     .is_err()
                 {
+                    #[cfg(kanal_verif)]
+                    crate::verif::access(crate::verif::acc::WAKER_READ, this as usize);
                     let thread = (*waker.get()).as_ref().unwrap().clone();
                     (*this).state.store(state, Ordering::Release);
                     thread.unpark();
@@ -235,6 +249,8 @@ impl<T> Signal<T> {
             }
             #[cfg(feature = "async")]
             KanalWaker::Async(w) => {
+                #[cfg(kanal_verif)]
+                crate::verif::access(crate::verif::acc::WAKER_READ, this as usize);
                 let w = w.clone();
                 (*this).state.store(state, Ordering::Release);
                 w.wake();
@@ -248,6 +264,8 @@ impl<T> Signal<T> {
     /// Safety: it's only safe to be called only once on the receive signals
     /// that are not terminated
     pub(crate) unsafe fn send(this: *const Self, d: T) {
+        #[cfg(kanal_verif)]
+        crate::verif::access(crate::verif::acc::SLOT_WRITE, this as usize);
         (*this).ptr.write(d);
         Self::wake(this, UNLOCKED);
     }
@@ -257,6 +275,8 @@ impl<T> Signal<T> {
     /// that are not terminated
     #[allow(unused)]
     pub(crate) unsafe fn send_copy(this: *const Self, d: *const T) {
+        #[cfg(kanal_verif)]
+        crate::verif::access(crate::verif::acc::SLOT_WRITE, this as usize);
         (*this).ptr.copy(d);
         Self::wake(this, UNLOCKED);
     }
@@ -265,6 +285,8 @@ impl<T> Signal<T> {
     /// Safety: it's only safe to be called only once on send signals that are
     /// not terminated
     pub(crate) unsafe fn recv(this: *const Self) -> T {
+        #[cfg(kanal_verif)]
+        crate::verif::access(crate::verif::acc::SLOT_READ, this as usize);
         let r = (*this).ptr.read();
         Self::wake(this, UNLOCKED);
         r
@@ -282,12 +304,23 @@ impl<T> Signal<T> {
     /// and not moved.
     #[cfg(feature = "async")]
     pub(crate) unsafe fn load_and_drop(&self) {
+        #[cfg(kanal_verif)]
+        crate::verif::access(crate::verif::acc::SLOT_READ, self as *const Self as usize);
         _ = self.ptr.read();
     }
 
     /// Returns signal terminator for other side of channel
     pub(crate) fn get_terminator(&self) -> SignalTerminator<T> {
+        #[cfg(kanal_verif)]
+        crate::verif::access(crate::verif::acc::SIG_PUBLISH, self as *const Self as usize);
         (self as *const Signal<T>).into()
+    }
+}
+
+#[cfg(kanal_verif)]
+impl<T> Drop for Signal<T> {
+    fn drop(&mut self) {
+        crate::verif::access(crate::verif::acc::SIG_END, self as *const Self as usize);
     }
 }
 
